@@ -442,11 +442,24 @@ def part_d(ctx):
 
 
 def run(ctx):
+    core.witnesses(ctx, ID, {'F44': f44_witness})
     install_sentinel()
     part_a(ctx)
     part_b(ctx)
     part_c(ctx)
     part_d(ctx)
+
+
+def f44_witness():
+    """finding F44: the dump of a delta between numpy arrays loads without any safe_to_import"""
+    import numpy as np
+    from deepdiff import DeepDiff, Delta
+    d = Delta(DeepDiff(np.array([[1, 2], [3, 4]]), np.array([[1, 2], [3, 5]])))
+    try:
+        Delta(d.dumps())
+        return True
+    except Exception:
+        return False
 
 
 def search(ctx):
